@@ -170,7 +170,9 @@ impl Optimizer for LM {
             let res_norm_sq = res.dot(&res);
             let new_res_norm_sq = new_res.dot(&new_res);
 
-            let pred_reduction = delta.t_dot(mu * &delta + jtr.data());
+            // predicted reduction of the model that was actually solved: the damping term is
+            // mu * diag(JtJ), not mu * I
+            let pred_reduction = delta.t_dot(mu * (jtj.diag() * &delta) + jtr.data());
 
             // calculate the gain ratio (actual reduction in error over predicted reduction)
             let rho = (res_norm_sq - new_res_norm_sq) / (0.5 * pred_reduction);
